@@ -1,10 +1,10 @@
 package props
 
 import (
-	"time"
 	"crypto/x509"
 	"fmt"
 	"strings"
+	"time"
 
 	"github.com/beevik/etree"
 	"github.com/crewjam/saml"
